@@ -232,6 +232,58 @@ def _del_cfg_gated_stmt(keywords):
     return f
 
 
+def _split_top_commas(text):
+    """split `text` at commas that are at nesting level 0 of () [] {} (ignoring strings/comments; `|..|` closure params have no commas here)"""
+    parts, depth, i, last = [], 0, 0, 0
+    while i < len(text):
+        j = _skip_noncode(text, i)
+        if j is not None:
+            i = j
+            continue
+        c = text[i]
+        if c in "([{":
+            depth += 1
+        elif c in ")]}":
+            depth -= 1
+        elif c == "," and depth == 0:
+            parts.append(text[last:i]); last = i + 1
+        i += 1
+    parts.append(text[last:])
+    return [p.strip() for p in parts if p.strip()]
+
+
+def _scan_closure_to_loop(text):
+    """`MARK_SPEC.scan_non_zero_values::<u8>(A, B, &mut |addr: Address| BODY)`  ==>  a loop over the sequence of set mark bits
+    of [A, B) that runs BODY (verbatim) for each -- the contract of scan_non_zero_values (C22) inlined at the call site."""
+    n, out, i = 0, [], 0
+    rx = re.compile(r"MARK_SPEC\s*\.\s*scan_non_zero_values::<u8>\(")
+    while i < len(text):
+        j = _skip_noncode(text, i)
+        if j is not None:
+            out.append(text[i:j]); i = j
+            continue
+        m = rx.match(text, i)
+        if m:
+            close = match_close(text, m.end() - 1, "(", ")")
+            args = _split_top_commas(text[m.end():close])
+            cm = re.match(r"&mut\s*\|\s*addr\s*:\s*Address\s*\|\s*(.*)$", args[2], re.S) if len(args) == 3 else None
+            if cm:
+                body = cm.group(1).strip()
+                if body.startswith("{"):
+                    body = body[1:match_close(body, 0)].strip()
+                if body and not body.endswith(";") and not body.endswith("}"):
+                    body += ";"
+                out.append("{\n            let scanned = self.marks.collect(%s, %s);\n            let ghost scan_from = state@;\n"
+                           "            let mut scan_k: usize = 0;\n            while scan_k < scanned.len() {\n"
+                           "                let addr = scanned[scan_k];\n                %s\n                scan_k = scan_k + 1;\n            }\n        }" % (args[0], args[1], body))
+                k = close + 1
+                i = k
+                n += 1
+                continue
+        out.append(text[i]); i += 1
+    return "".join(out), n
+
+
 def _re_rule(pattern, repl, flags=re.M):
     def f(text):
         return re.subn(pattern, repl, text, flags=flags)
@@ -273,6 +325,18 @@ RULES = {
                           "the VM type parameter only selects the metadata spec constants; the two metadata tables become explicit fields"),
     "los_struct_fields": (_re_rule(r"CommonSpace<VM>", "CommonSpaceFlags"), "only the boolean flags of CommonSpace are read by the extracted functions"),
     "los_struct_fields2": (_re_rule(r"FreeListPageResource<VM>", "PageResourceStub"), "the page resource is not touched by the extracted functions (opaque)"),
+    # ---- Compressor glue (unit `compressor_glue`) ----
+    "compressor_scan_closure": (_scan_closure_to_loop,
+                                "a closure that mutates captured state is outside the Verus subset: `MARK_SPEC.scan_non_zero_values::<u8>(A, B, &mut |addr| BODY)` becomes a loop that runs BODY "
+                                "(verbatim) for each element of `self.marks.collect(A, B)`, the ascending sequence of set mark bits of [A, B) -- the contract of the scan (C22) inlined at the call site"),
+    "compressor_offset_calls": (_re_rule(r"OFFSET_VECTOR_SPEC\s*\.\s*(store_atomic|load_atomic)::<usize>\(", r"self.offsets.\1("),
+                                "the offset-vector side table becomes the explicit field `offsets`, whose accessors carry the word-field contract C20 proves on the real accessors"),
+    "desugar_for_region_iter": (_re_rule(r"for (\w+) in (RegionIterator::<Block>::new\([^()]*\)) \{", r"let mut iter = \2;\n        loop {\n            let \1 = match iter.next() { Some(x) => x, None => break };"),
+                                "Rust's own desugaring of `for` over an Iterator (loop + match on next()), so that the loop can carry an invariant"),
+    "fwdmeta_struct": (_re_rule(r"struct\s+ForwardingMetadata<VM:\s*VMBinding>\s*\{", "struct ForwardingMetadata {\n    pub marks: MarkTable,\n    pub offsets: OffsetTable,"),
+                       "the VM type parameter is unused by the extracted functions; the two Compressor side tables (global in the real code) become explicit fields"),
+    "fwdmeta_struct2": (_re_rule(r"AtomicBool", "CalcFlag"), "the `calculated` flag is only stored to by the extracted functions (opaque)"),
+    "fwdmeta_struct3": (_re_rule(r"^\s*(?:pub\s+)?vm:\s*PhantomData<VM>,\s*\n", ""), "phantom marker of the dropped type parameter"),
     "los_struct_fields3": (_re_rule(r"\bTreadMill\b", "TreadMillSync"), "the treadmill's methods are re-homed on its mutex-protected struct (unit treadmill)"),
 }
 
@@ -396,6 +460,14 @@ def build(unit, repo):
                     if n == 0:
                         raise LostAnchor("fn %s has no return type to name" % it["name"])
                 body = splice_loops(body, it.get("loops", {}))
+                for rx, htext in it.get("hints_after", []):
+                    # proof hints (lemma calls / ghost lets only) inserted right after the first statement matching rx
+                    if FORBIDDEN_IN_ITEMS.search(htext):
+                        raise ValueError("forbidden construct in hint of %s" % it["name"])
+                    hm = re.search(rx, body)
+                    if not hm:
+                        raise LostAnchor("hint anchor %r in fn %s" % (rx, it["name"]))
+                    body = body[:hm.end()] + "\n" + htext + body[hm.end():]
                 spec = ""
                 if it.get("requires"):
                     spec += "\n    requires\n        " + ",\n        ".join(it["requires"]) + ","
